@@ -345,6 +345,9 @@ def bibtex_prefix(string, num_chars):
     """
     def prefix():
         length = 0
+        brace_level = 0
+        if num_chars <= 0:
+            return
         for char, brace_level in scan_bibtex_string(string):
             yield char
             if char not in '{}':
